@@ -18,6 +18,9 @@ CliPrograms == {k \in Kernels : k.name \notin {"rnd", "forever"}} \cup      \* (
       K("unordered", << "30 PRINT X", "10 X=4", "20 GOSUB 100", "25 END", "100 X=X+1:RETURN" >>),
       K("tail", << "10 PRINT \"HI\"", "20 PRINT \"TAIL\";" >>),
       K("quiet_end", << "10 PRINT \"HI\"", "20 X = 1", "30 END" >>),
+      \* text that runs to the physical end of the line: an open DATA quote, REM, trailing blanks
+      K("eol", << "10 DATA \"FOO\", \"BAR   ", "20 READ A$,B$:PRINT A$;B$;\"|\"   ", "30 REM box [   ", "40 PRINT 1  " >>),
+      K("eol2", << "10 REM x  ", "20 DATA a , b  ", "30 READ A$,B$:PRINT B$;A$;\"|\"" >>),
       K("partial", << "10 PRINT \"abc\";:PRINT Q", "20 PRINT \"d\";", "30 INPUT A", "40 PRINT \"e\";:PRINT 1/0" >>) }
 OptSets == [w : BOOLEAN, t : BOOLEAN, s : BOOLEAN]
 \* Replies are bare numbers: what the program does not consume is read by the interactive
